@@ -859,7 +859,7 @@ MA('C15', 'per-axis nearest weights overlap at the tie', DUF,
    'w_lo = np.where(ndist <= 0.5, 1.0, 0.0)', 'per_axis_interpolator[nearest]')
 MA('C15', 'integer accumulator regression', DUF,
    '_PerAxisInterpolator._evaluate',
-   'out_dtype = np.result_type(self.values.dtype, np.float16)',
+   'out_dtype = np.dtype(float)',
    'out_dtype = self.values.dtype', 'C15-R5')
 MA('C15', 'distance normalised by the first cell', DUF,
    '_Interpolator._find_indices',
@@ -1121,3 +1121,10 @@ MA('C05', 'InnerProductOperator adjoint over the wrong field', DOPF,
    'return MultiplyOperator(self.vector, self.vector.space.field)',
    'return MultiplyOperator(self.vector.conj(), self.vector.space.field)',
    'InnerProductOperator[C]')
+MA('C15', 'integer values accumulated in half precision', DUF,
+   '_PerAxisInterpolator._evaluate', 'out_dtype = np.dtype(float)',
+   'out_dtype = np.result_type(self.values.dtype, np.float16)', 'int8')
+M('C15', 'query points cast to the value precision', DUF,
+  "                xi = np.asarray(xi).astype(self.values.dtype, casting='safe')",
+  "                xi = np.asarray(xi).astype(self.values.dtype, casting='same_kind')",
+  'float32')
